@@ -386,9 +386,86 @@ def run_crashcut(case, ctx):
     ctx.evaluations += len(work) - 1
 
 
+def _asan_driver():
+    """Compile the harness-owned reader driver against the ASan+UBSan build (cached in the build dir)."""
+    import hashlib
+    import subprocess
+    from .. import build
+    d = build.build("asan")
+    src = os.path.join(build.VERIF, "vf", "chelpers", "c07_asan_reader.c")
+    h = hashlib.sha256(open(src, "rb").read()).hexdigest()[:10]
+    exe = os.path.join(d, "c07_asan_reader2-" + h)
+    if not os.path.exists(exe):
+        cc, flags, ld = build.VARIANTS["asan"]
+        cmd = [cc, "-D_GNU_SOURCE", "-w"] + flags + ld + ["-I", os.path.join(d, "include"), src, "-L", d,
+               "-l:librebound.so", "-Wl,-rpath," + d, "-lm", "-o", exe + ".tmp%d" % os.getpid()]
+        r = subprocess.run(cmd, capture_output=True, text=True)
+        if r.returncode != 0:
+            raise RuntimeError("asan driver build failed: " + r.stderr[-2000:])
+        os.rename(exe + ".tmp%d" % os.getpid(), exe)
+    return exe
+
+
+def prepare(tier):
+    _asan_driver()
+
+
+def run_asan(case, ctx):
+    """All crash images of a generated archive through the C readers of the ASan+UBSan build."""
+    import subprocess
+    import warnings
+    import rebound
+    warnings.simplefilter("ignore")
+    path = os.path.join(ctx.scratch, "ua.bin")
+    if os.path.exists(path):
+        os.unlink(path)
+    try:
+        images, _ = uninterrupted(case, path)
+    except (RuntimeError, rebound.Escape, rebound.Encounter, rebound.Collision, rebound.NoParticles):
+        ctx.skip("uninterrupted run raised")
+        return
+    if len(images) < 2:
+        ctx.skip("fewer than two writes")
+        return
+    work = []
+    for k in range(len(images)):
+        prev = images[k - 1] if k else None
+        for kind, off, img in crash_images(prev, images[k]):
+            work.append((k, kind, off, img))
+    pack = os.path.join(ctx.scratch, "pack.bin")
+    with open(pack, "wb") as f:
+        for k, kind, off, img in work:
+            f.write(struct.pack("<I", len(img)))
+            f.write(img)
+    exe = _asan_driver()
+    rt = subprocess.run(["clang", "-print-file-name=libclang_rt.asan-x86_64.so"], capture_output=True, text=True).stdout.strip()
+    env = dict(os.environ, LD_LIBRARY_PATH=os.path.dirname(rt) + ":" + os.environ.get("LD_LIBRARY_PATH", ""), ASAN_OPTIONS="detect_leaks=0:abort_on_error=0:exitcode=66", UBSAN_OPTIONS="halt_on_error=1:exitcode=67")
+    r = subprocess.run([exe, pack, os.path.join(ctx.scratch, "img.bin")], capture_output=True, text=True, env=env, timeout=3000)
+    lines = r.stdout.strip().splitlines()
+    if r.returncode != 0 or not lines or not lines[-1].startswith("DONE"):
+        idx = None
+        for l in reversed(lines):
+            if l.startswith("IMG"):
+                idx = int(l.split()[1])
+                break
+        k, kind, off, img = work[idx] if idx is not None else (None, None, None, b"")
+        rep = [l for l in r.stderr.splitlines() if "ERROR" in l or "SUMMARY" in l or "runtime error" in l][:4]
+        raise Violation("sanitizer build: reading crash image of write %s (%s, offset %s) fails with exit code %d: %s"
+                        % (k, kind, off, r.returncode, " | ".join(rep)[:400]), write=k, kind=kind, offset=off,
+                        exitcode=r.returncode)
+    from ..core import case_hash
+    ah = case_hash(case)
+    for idx in range(len(work)):
+        ctx.nontrivial_hashes.add("%s:%d" % (ah[:10], idx))
+    ctx.evaluations += len(work) - 1
+    ctx.classes["asan_images"] = ctx.classes.get("asan_images", 0) + len(work)
+
+
 def subs(tier):
     return [
         Sub("crashcut", run_crashcut, strategy=archive_case, quick=16, thorough=480, shards_quick=16,
+            shards_thorough=16, timeout_quick=600),
+        Sub("asan_reader", run_asan, strategy=archive_case, quick=8, thorough=160, shards_quick=4,
             shards_thorough=16, timeout_quick=600),
     ]
 
